@@ -97,7 +97,14 @@ def work(item):
         a = R.run_life(lay, h)
         b = R.run_life(lay, h)
         if [r[0] for r in a.log] != [r[0] for r in b.log]:
-            raise core.HarnessError(f"non-deterministic robot life for {lay['name']} {h!r}")
+            # two runs of the same history differ.  If either run disagrees with the loop model that is a finding about the
+            # library (e.g. a loop that is no longer paced by the clock races with the harness); only two model-conforming
+            # but different runs would be a harness problem.
+            va, vb = check_life(lay, h, a, res), check_life(lay, h, b, res)
+            if not va and not vb and [R.norm_sites([r]) for r in a.log] != [R.norm_sites([r]) for r in b.log]:
+                raise core.HarnessError(f"non-deterministic robot life for {lay['name']} {h!r}")
+            for sig, msg in va + vb:
+                res.violation(sig, f"layout {lay['name']}: {msg}", dict(engine="robot", layout=lay, history=h, source=R.robot_source(lay)))
         res.determinism_reruns += 1
     d = res.to_dict()
     d["extra"]["_states"] = sorted(map(list, res.extra.get("_states", ())), key=repr)
